@@ -58,6 +58,8 @@ def run(ctx):
             sysmon.feed(ctx, res, findings, f'system response-file scenarios {os.path.basename(cc)}')
             res = sysmon.st.run_side_outputs(sysmon.sysroot(ctx, 'c01'), 'c01s' + os.path.basename(cc), cc)
             sysmon.feed(ctx, res, findings, f'system side-output scenarios {os.path.basename(cc)}')
+            res = sysmon.st.run_extra_files(sysmon.sysroot(ctx, 'c01'), 'c01x' + os.path.basename(cc), cc)
+            if res['requests']: sysmon.feed(ctx, res, findings, f'system list-file scenarios {os.path.basename(cc)}')
             for dm in (True, False):
                 res = sysmon.st.run_histories(sysmon.sysroot(ctx, 'c01'), f'c01{os.path.basename(cc)}{dm}', cc, ctx.seed * 7 + dm, nh, nr, direct_mode=dm)
                 sysmon.feed(ctx, res, findings, f'system {os.path.basename(cc)} preprocessor_cache_mode={dm}')
